@@ -248,7 +248,16 @@ def main(argv=None):
     exhausted = sum(d["slices_exhausted"] for d in per_h.values())
     undecided = sum(d["undecided"] for d in per_h.values())
     exhaustive = exhausted == total_slices and undecided == 0 and all(x.get("exhaustive", True) for x in aux_out)
-    if not exhaustive:
+    premises = []
+    for pf in getattr(mod, "PREMISES", []):
+        ok, text = pf()
+        premises.append({"premise": text, "holds": bool(ok)})
+        if not ok:
+            exhaustive = False
+            print("INCONCLUSIVE: property=%s premise of a harness does not hold on this tree: %s" % (pid, text))
+    if exhaustive is False and exhausted == total_slices and undecided == 0:
+        pass
+    elif not exhaustive:
         print("INCONCLUSIVE: property=%s %d/%d slices exhausted within the budget, %d solver answers unknown" % (
             pid, exhausted, total_slices, undecided))
 
@@ -289,6 +298,7 @@ def main(argv=None):
             "solver": "z3 %s (python wheel), per-query timeout %d ms" % (core.z3.get_version_string(), core.QUERY_TIMEOUT_MS),
             "solver_queries": sum(d["solver_queries"] for d in per_h.values()),
             "solver_s": round(sum(d["solver_s"] for d in per_h.values()), 2),
+            "premises": premises,
             "known_findings_hit": sorted("%s/%s" % k for k in printed_known),
             "engine_errors": len(errors),
             "budget_s": budget,
